@@ -132,6 +132,7 @@ func (prog *Prog) Load(src io.Reader) (err error) {
 	if b[1] > bytecodeMinor {
 		return fmt.Errorf("invalid bcode minor version")
 	}
+	verifEv("D", "ld", 0, 0, prog)
 
 	m, err = uvarintFromBuf(r)
 	if err != nil {
@@ -143,6 +144,7 @@ func (prog *Prog) Load(src io.Reader) (err error) {
 		return fmt.Errorf("name too short: %w", err)
 	}
 	prog.name = string(p)
+	verifEv("D", "ld", 1, len(prog.name), prog)
 
 	m, err = uvarintFromBuf(r)
 	if err != nil {
@@ -156,6 +158,7 @@ func (prog *Prog) Load(src io.Reader) (err error) {
 		}
 		return fmt.Errorf("code too short")
 	}
+	verifEv("D", "ld", 2, len(prog.code), prog)
 
 	m, err = uvarintFromBuf(r)
 	if err != nil {
@@ -168,6 +171,7 @@ func (prog *Prog) Load(src io.Reader) (err error) {
 			return fmt.Errorf("constant[%d]: %w", i, err)
 		}
 	}
+	verifEv("D", "ld", 3, len(prog.constants), prog)
 
 	m, err = uvarintFromBuf(r)
 	if err != nil {
@@ -181,6 +185,7 @@ func (prog *Prog) Load(src io.Reader) (err error) {
 		}
 		prog.positions[i] = int(x)
 	}
+	verifEv("D", "ld", 4, len(prog.positions), prog)
 
 	m, err = uvarintFromBuf(r)
 	if err != nil {
@@ -194,6 +199,7 @@ func (prog *Prog) Load(src io.Reader) (err error) {
 		}
 		prog.linePos.lfs[i] = int(x)
 	}
+	verifEv("D", "ld", 5, len(prog.linePos.lfs), prog)
 
 	_, err = r.Read(b[:1])
 	if err == io.EOF {
